@@ -295,8 +295,16 @@ func C17() *sim.Check {
 					c.St.Inc("fired_map_order_permutation_" + o.name)
 				}
 				if got != ref[i] {
-					out := &sim.Outcome{Class: "order-dependent", Key: "determ:" + op.name,
-						Detail: fmt.Sprintf("%s gives different output under map order %q than under sorted order: %s", op.name, o.name, firstDiff(got, ref[i]))}
+					// diagnose: is it the order, or does the output change from one
+					// invocation to the next whatever the order (clock, addresses,
+					// state left behind by an earlier operation)?
+					again := safeOp(op)
+					class, why := "order-dependent", fmt.Sprintf("under map order %q than under sorted order", o.name)
+					if again != ref[i] {
+						class, why = "repeat-dependent", "when invoked again under the same sorted map order (the simulated clock has jumped, the heap has moved and other operations - including a hostile program in its own interpreter - have run in between)"
+					}
+					out := &sim.Outcome{Class: class, Key: "determ:" + op.name,
+						Detail: fmt.Sprintf("%s gives different output %s: %s", op.name, why, firstDiff(got, ref[i]))}
 					if c.Explain {
 						out.Human = map[string]any{"values": desc, "operation": op.name, "order": o.name, "output_sorted_order": clipS(ref[i], 3000), "output_this_order": clipS(got, 3000)}
 					}
